@@ -20,10 +20,10 @@ RANGE_RE = re.compile(r"^\d+-\d+(,\d+-\d+)*$")
 BUF = 32768
 
 
-def make_base(r, sizes, dict_size=0, chunk_hash=3, tail=0):
+def make_base(r, sizes, dict_size=0, chunk_hash=3, tail=0, zero_digest=True):
     pieces = [r.randbytes(s) for s in sizes]
     d = zckref.make_file(pieces, dict_bytes=r.randbytes(dict_size) if dict_size else b"", chunk_hash_type=chunk_hash, header_tail=bytes(tail))
-    if 0 in sizes:
+    if 0 in sizes and zero_digest:
         # the library's convention for a chunk without bytes is an all-zero checksum (as for the empty dictionary): write it that way,
         # so that the scan marks such a chunk valid
         import basefiles
@@ -319,13 +319,14 @@ class C10(core.Check):
         # empty chunks in the middle of the index (another writer may emit them; they occupy no bytes and verify trivially): the
         # missing chunks around them are still byte-adjacent and must come out as ONE range
         small.append(("n7z", [4, 0, 6, 0, 0, 3, 9], 0))
+        small.append(("n7e", [5, 0, 0, 7, 2, 0, 3], 0))     # the same with the checksum of nothing instead of zeros
         small.append(("n8" if self.quick else "n11", [r.choice([1, 2, 5, 90]) for _ in range(8 if self.quick else 11)], r.choice([0, 17])))
         if not self.quick:
             small.append(("n13", [r.choice([1, 3, 9, 200]) for _ in range(13)], 0))
             # chunk starts / ends on exact powers of ten (digit-count edges of the rendered text): header padded with a dictionary
             small.append(("n10p", [9000, 90000, 1, 9, 90, 900, 9000 - 1, 2, 5, 890000], 300))
         for name, sizes, ds in small:
-            data = make_base(r, sizes, ds)
+            data = make_base(r, sizes, ds, zero_digest=(name != "n7e"))
             p = zckref.parse(data)
             if name == "n10p":
                 # pad the header so that the first data chunk starts at offset 1000 exactly (then 10000, 100000 follow from the sizes)
